@@ -3,6 +3,7 @@ import GlyModel.Smiles.Tokenize
 import GlyProofs.Smiles.Relabel
 import GlyProofs.Smiles.TreeTheorem
 import GlyProofs.Smiles.Sanitize
+import GlyProofs.Smiles.LabelWindow
 import GlyProofs.Api.LifecycleLemmas
 /-
   C02 — Every non-empty result is a valid, whole, placeholder-free molecule. (Property theorems only.)
@@ -117,5 +118,15 @@ theorem C02_get_smiles_stable (valid : List Char → Bool) (treeOnly full tfCtor
     (tf1 : Bool) (m1 : Option (List Char)) (r : List Char) (h : getSmiles valid o tf1 m1 = some (r, o'))
     (tf2 : Bool) (m2 : Option (List Char)) : ∃ o'', getSmiles valid o' tf2 m2 = some (r, o'') :=
   getSmiles_stable valid treeOnly full tfCtor merged o o' hc tf1 m1 r h tf2 m2
+
+open Gly.Smi in
+/-- **Why the ring offsets keep labels apart** (the invariant behind repair 11dc0af): if every ring label written in the parent
+    before the splice point is at most `B` and every label of the child's block is above `B` – which `merge_int` arranges by
+    shifting a child's labels by the parent's offset plus the number of the parent's rings – then no label of the block is open at
+    the splice point: the label clause of `wfTree` (hypothesis of `C02_no_marker_survives`) holds by arithmetic. -/
+theorem C02_label_windows (pre : List Tok) (S : St) (B : Nat) (labels : List Nat)
+    (hrun : run St.init pre = some S) (hpre : ∀ l ∈ labelsOf pre, l ≤ B) (hblk : ∀ l ∈ labels, B < l) :
+    labels.all (fun l => (lookupLabel l S.opens).isNone) = true :=
+  labels_free_of_window pre S B labels hrun hpre hblk
 
 end Gly.Props.C02
